@@ -213,9 +213,18 @@ impl Universe {
             ski[0] = i as u8;
             ski[19] = t.choose(256) as u8;
             let n = *t.pick(&[0usize, 1, 33, 91, 200, 255, 256, 1024]);
+            let mut asn = 64500 + t.choose(3) as u32;
+            // sometimes the same key identifier and AS as the previous key with
+            // other key info: to RTR these are two records
+            if i > 0 && t.chance(1, 4) {
+                if let Some(Key::RouterKey { ski: prev_ski, asn: prev_asn, .. }) = keys.last() {
+                    ski = *prev_ski;
+                    asn = *prev_asn;
+                }
+            }
             keys.push(Key::RouterKey {
                 ski,
-                asn: 64500 + t.choose(3) as u32,
+                asn,
                 spki: (0..n).map(|j| (j as u8).wrapping_mul(3).wrapping_add(i as u8)).collect(),
             });
         }
